@@ -1128,6 +1128,16 @@ pub fn witness_docs() -> Vec<Planted> {
     out.push(Planted { frag: "xref-stream", desc: "witness:D34 W [0 0 0] with 2147483647 entries".into(), bytes: xref_stream_doc(["0", "0", "0"], Some("0 2147483647"), "5", [1, 4, 2], 0, None) });
     let spec = ObjStmSpec { n: "2".into(), first: "1".into(), header: "20 0 21 18446744073709551615 ".into(), body: b"11 [22] ".to_vec(), extends: None };
     out.push(Planted { frag: "objstm", desc: "witness:object stream offset 2^64-1".into(), bytes: objstm_doc(&spec, None, &[(20, 10, 0), (21, 10, 1)], None, None) });
+    // a key length that asks for a quarter of a gigabyte (memory in proportion to the file)
+    {
+        use super::numeric::{crypt_bases, crypt_base_fields, crypt_document};
+        let b = &crypt_bases()[2];
+        let mut c = crypt_base_fields(b);
+        c.fields.bits = Some(2147483640);
+        let mut p = crypt_document(&c, "witness:/Length 2147483640 (268 MB key buffer)".into(), PLAIN);
+        p.frag = "crypt-guards";
+        out.push(p);
+    }
     // /Prev loops behind junk: the guard must compare in one coordinate system
     for (px, stream) in [(13usize, false), (SECTION_SPACING, true), (1, false)] {
         out.push(Planted { frag: "prev", desc: format!("witness:/Prev ring of three behind {} junk bytes stream={}", px, stream),
